@@ -137,7 +137,8 @@ def same_entity(a, b):
     if a[0] != b[0]:
         return False
     if a[0] == "record":
-        return a[1] == b[1]
+        # same name, or the same record under another name (docs: "Renaming a Record" - the old name lives on as an alias)
+        return a[1] == b[1] or (len(a[2]) == len(b[2]) and all(x[0] == y[0] and same_entity(x[1], y[1]) for x, y in zip(a[2], b[2])))
     if a[0] == "enum":
         return a[2] == b[2]
     if a[0] == "prim":
